@@ -44,7 +44,10 @@ Definition prop_C01_step (cfg : config) (before : forest) (o : op) (after : fore
   wf_b after &&
   (if accepted
    then let r := step cfg before o in is_ok (snd r) && same_links (fst r) after
-   else true).
+   else match o with
+        | Sort _ _ _ => same_links before after     (* a sort whose comparison raises keeps the given order *)
+        | _ => true
+        end).
 
 (* C02: a rejected / failing operation changes nothing.  (extend is a sequence of assignments;
    its earlier, accepted assignments stay — it is covered assignment by assignment.) *)
